@@ -220,13 +220,13 @@ class MG:
         if r < 0.2:
             return ("gate", "top_hat_cz", [rng.choice(["z0", "z1"])] + rng.choice([[], [2.0], [1.5, 4.0]]))
         if r < 0.35:
-            return ("gate", "local_r", [0.25, float(rng.randint(1, 3)), rng.choice(["z0", "z1"])])
+            return ("gate", "local_r", [0.25, float(rng.randint(0, 3)), rng.choice(["z0", "z1"])])      # angle 0.0 included
         if r < 0.5:
-            return ("gate", "local_rz", [float(rng.randint(1, 3)), rng.choice(["z0", "z1"])])
+            return ("gate", "local_rz", [float(rng.randint(0, 3)), rng.choice(["z0", "z1"])])
         if r < 0.65:
-            return ("gate", "global_r", [0.5, float(rng.randint(1, 3))])
+            return ("gate", "global_r", [rng.choice([0.5, 0.0]), float(rng.randint(0, 3))])
         if r < 0.8:
-            return ("gate", "global_rz", [float(rng.randint(1, 3))])
+            return ("gate", "global_rz", [float(rng.randint(0, 3))])
         if r < 0.92:
             return ("fill", rng.choice([["z0"], ["z0", "z1"], ["z1"]]))
         return ("measure", rng.choice(["z0", "z1"]))
@@ -252,6 +252,12 @@ class MG:
                 out.append(self.call())
             elif r < 0.55 and self.o["blocks"]:
                 out.append(self.block(1))
+                if rng.random() < 0.2:
+                    # the same block written twice (CSE may make both plays share one group value)
+                    if rng.random() < 0.5:
+                        out.append(self.other())
+                    out.append(out[-1] if out[-1][0] == "block" else out[-2])
+                    self.tags.add("repeated-block")
             elif r < 0.75 and self.o["gates"]:
                 out.append(self.other())
             elif r < 0.87 and self.o["control"] and depth < 2:
